@@ -60,10 +60,16 @@ class CompileCase:
         stack = [k_ for k_ in self.sym_keys if k_[0] != "#"] if stacked else []
         pvec = self.XX.sym("p", len(stack)) if len(stack) >= 2 else None
         self.stacked = pvec is not None
+        # ... or the other way round: symbols created one by one and handed over as ONE entry of `parameters`, their
+        # concatenation (`parameters={"p": vertcat(rho_crit, a, v_free)}` - one function argument out of separate symbols)
+        self.concatenated = pvec is not None and (stacked == "concat" or rng.random() < 0.4)
+        if self.concatenated:
+            singles = [self.XX.sym(f"{a_}_{e_}") for (e_, a_) in stack]
+            pvec = cs.vertcat(*singles)
         for (eid, attr) in self.sym_keys:
             if pvec is not None and eid != "#":
                 i_ = stack.index((eid, attr))
-                override[(eid, attr)] = pvec[i_]
+                override[(eid, attr)] = singles[i_] if self.concatenated else pvec[i_]
                 self.param_name[(eid, attr)] = ("p", i_)
                 if "p" not in self.parameters:
                     self.parameters["p"] = pvec
